@@ -80,6 +80,18 @@ type chainOp struct {
 	run     func(qf qframe.QFrame) qframe.QFrame
 }
 
+func uniqNames(in []string) []string {
+	seen := map[string]bool{}
+	out := in[:0:0]
+	for _, s := range in {
+		if !seen[s] {
+			seen[s] = true
+			out = append(out, s)
+		}
+	}
+	return out
+}
+
 func callbacks() int64 { return atomic.LoadInt64(&hx.ApplyCalls) + atomic.LoadInt64(&hx.PredCalls) }
 
 func genHostileFilterClause(t *rapid.T, depth int) (qframe.FilterClause, string) {
@@ -189,6 +201,7 @@ func genChainOp(t *rapid.T, healthyPossible bool) chainOp {
 		for i := range cols {
 			cols[i] = pickName(t, "selcol")
 		}
+		cols = uniqNames(cols) // duplicate names in a projection are outside the domain
 		if rapid.Bool().Draw(t, "drop") {
 			return chainOp{desc: fmt.Sprintf("Drop(%q)", cols), run: func(qf qframe.QFrame) qframe.QFrame { return qf.Drop(cols...) }}
 		}
@@ -230,6 +243,7 @@ func genChainOp(t *rapid.T, healthyPossible bool) chainOp {
 		for i := range cols {
 			cols[i] = pickName(t, "dcol")
 		}
+		cols = uniqNames(cols)
 		null := rapid.Bool().Draw(t, "null")
 		return chainOp{desc: fmt.Sprintf("Distinct(%q,null=%v)", cols, null), run: func(qf qframe.QFrame) qframe.QFrame {
 			return qf.Distinct(groupby.Columns(cols...), groupby.Null(null))
@@ -240,6 +254,7 @@ func genChainOp(t *rapid.T, healthyPossible bool) chainOp {
 		for i := range cols {
 			cols[i] = pickName(t, "gcol")
 		}
+		cols = uniqNames(cols)
 		na := rapid.IntRange(0, 2).Draw(t, "naggs")
 		aggs := make([]qframe.Aggregation, na)
 		ds := make([]string, na)
